@@ -408,7 +408,7 @@ def pullClamped (clamp : Option Nat) (H : Hasher) (sortBucket : Bool) (vs : Valu
 
 /-- how a configured `merkle_tree_depth` becomes the depth in effect -/
 inductive DepthBound where
-  | unbounded            -- `1 << depth` at every use (before fix d124941)
+  | unbounded            -- `1 << depth` at every use (before fix c51a674)
   | capped (max : Nat)   -- `bucket_count(depth) = 1 << depth.min(MAX_MERKLE_TREE_DEPTH)`, the one
                          -- function through which digest construction and `KeyDigest::bucket` go
   deriving DecidableEq, Repr
@@ -423,7 +423,7 @@ def effectiveDepth (b : DepthBound) (depth : Nat) : Nat :=
 /-- `MAX_MERKLE_TREE_DEPTH` -/
 def currentDepthBound : DepthBound := .capped 20
 
-/-- `AntiEntropyConfig::keys_per_sync() = max_keys_per_sync.max(1)` (since fix 69ea959; before it
+/-- `AntiEntropyConfig::keys_per_sync() = max_keys_per_sync.max(1)` (since fix 7f2c849; before it
     the configured limit was used as it is) -/
 def effectiveLimit (atLeastOne : Bool) (limit : Nat) : Nat := if atLeastOne then max limit 1 else limit
 
